@@ -288,6 +288,31 @@ def r02h(ctx):
                       "documents differ")
 
 
+def r02c3(ctx):
+    m = ctx.model
+    ctx.rule("R02c", "levenshtein_distance returns the table cell indexed by the table's dimensions, not by loop-carried "
+                     "variables of loops that may run zero times")
+    f = m.func("graphtage.levenshtein.levenshtein_distance")
+    ps = func_params(f.node)[:2]
+    trims = [a for a in walk_no_nested(f.node) if isinstance(a, ast.Assign) and len(a.targets) == 1 and isinstance(a.targets[0], ast.Name)
+             and a.targets[0].id in ps and isinstance(a.value, ast.Subscript) and isinstance(a.value.slice, ast.Slice)]
+    if not trims:
+        ctx.proved("R02c", f.file, "levenshtein_distance", f.node, "arguments untrimmed", "the strings are compared whole (no prefix/suffix trimming)", nontrivial=False)
+        return
+    # a trimmed implementation: the suffix must be measured on what follows the prefix in both strings
+    scans = [l for l in walk_no_nested(f.node) if isinstance(l, ast.For) and isinstance(l.iter, ast.Call) and call_name(l.iter) == "zip"
+             and all(isinstance(x, ast.Call) and call_name(x) == "reversed" for x in l.iter.args)]
+    ok = bool(scans) and all(all(isinstance(x.args[0], ast.Subscript) and isinstance(x.args[0].slice, ast.Slice) and x.args[0].slice.lower is not None
+                                 and x.args[0].slice.upper is None and dotted(x.args[0].value) in ps for x in l.iter.args) for l in scans)
+    if ok:
+        ctx.proved("R02c", f.file, "levenshtein_distance", trims[0], "trimming clear of the prefix", "the common suffix is measured on the remainders after the common prefix")
+    else:
+        ctx.violation("R02c", f.file, "levenshtein_distance", trims[0], "trimming clear of the prefix",
+                      f"levenshtein_distance trims a common prefix and suffix (`{norm(trims[0], 50)}`) but the suffix is not measured on what "
+                      f"follows the prefix in BOTH strings: for '1' vs '11' (a doubled character) prefix and suffix overlap, both remainders "
+                      f"are empty and the distance is 0 - two different scalars match at cost 0 and are printed without any mark")
+
+
 def r02d(ctx):
     m = ctx.model
     ctx.rule("R02d", "main returns status 1 iff had_edits; had_edits starts False and each output mode sets it from "
@@ -458,6 +483,7 @@ def run(ctx):
     r02b(ctx)
     r02c(ctx)
     r02c2(ctx)
+    r02c3(ctx)
     r02d(ctx)
     r02e(ctx)
     r02f(ctx)
